@@ -95,6 +95,43 @@ def gen_setter(rng, o, N, max_len=5):
     return {"op": "set_orientation", "o": o, "r": r}
 
 
+def fit_start(rng, N, n, scalar):
+    """a start value for which an input of n entries stays inside a path of length N"""
+    if scalar:
+        return rng.choice(["auto"] + list(range(-N, N)))
+    lo, hi = 0, N - n
+    s = rng.randint(lo, hi)
+    return s if rng.random() < 0.6 else s - N
+
+
+def gen_fit_op(rng, o, N, kinds=("move", "rotate", "setter"), forms=FORMS):
+    """a length-preserving path op for an object whose path has length N"""
+    k = rng.choice([x for x in kinds if x != "reset"] or ["move"])
+    if k == "move":
+        scalar = rng.random() < 0.5 or N == 0
+        n = rng.randint(1, min(4, N))
+        return {"op": "move", "o": o, "d": gen.vec3(rng) if scalar else gen.path(rng, n),
+                "start": fit_start(rng, N, n, scalar)}
+    if k == "rotate":
+        for _ in range(20):
+            op = gen_rotate(rng, o, N, forms, max_vec=min(4, N), wild=False)
+            nvec = op_nvec(op)
+            a = op.get("anchor")
+            na = len(a) if (a is not None and a != 0 and isinstance(a[0], list)) else 0
+            n = max(nvec, na)
+            if n > N:
+                continue
+            op["start"] = fit_start(rng, N, max(n, 1), n == 0)
+            return op
+        return {"op": "rotate", "o": o, "form": "rotation", "rv": gen.rotvec_deg(rng), "anchor": None,
+                "start": "auto"}
+    if rng.random() < 0.5:
+        v = gen.path(rng, N)
+        return {"op": "set_position", "o": o, "v": v if N > 1 or rng.random() < 0.5 else v[0]}
+    r = gen.rotvecs(rng, N)
+    return {"op": "set_orientation", "o": o, "r": r if N > 1 or rng.random() < 0.5 else r[0]}
+
+
 def gen_path_op(rng, o, N, kinds=("move", "rotate", "setter", "reset"), forms=FORMS, wild=True):
     k = rng.choice(kinds)
     if k == "move":
@@ -104,6 +141,20 @@ def gen_path_op(rng, o, N, kinds=("move", "rotate", "setter", "reset"), forms=FO
     if k == "setter":
         return gen_setter(rng, o, N)
     return {"op": "reset_path", "o": o}
+
+
+def op_nvec(op):
+    for k in ("d", "rv", "angle", "v", "r"):
+        if k in op and op[k] is not None:
+            v = op[k]
+            if op.get("form") == "euler":
+                return len(v) if isinstance(v, list) and isinstance(v[0], list) else 0
+            if isinstance(v, list) and v and isinstance(v[0], list):
+                return len(v)
+            if k == "angle" and isinstance(v, list):
+                return len(v)
+            return 0
+    return 0
 
 
 # ----------------------------------------------------------------------------- rotations
